@@ -1,8 +1,13 @@
 #!/bin/bash
-# Offline setup: install runtime-contract libraries beside the harness (optional backend) and self-test the reference models.
-set -u
+# Offline setup. Nothing is downloaded or installed: the harness is pure Python on /venv/bin/python (the interpreter that has the
+# repository's own dependencies). What setup does is validate the trusted base: the reference models' self-tests
+# (R1 decode/encode fixed point + illegal opcodes, R4 generator->parser round trips + one negative test per framing clause,
+#  R5 writer->fsck round trips + one negative test per C08 clause).
 cd "$(dirname "$0")"
-if [ ! -d .deps/icontract ]; then
-  /venv/bin/pip install -q --no-index --find-links /opt/veriftools/wheels --target .deps icontract deal >/dev/null 2>&1 || echo "setup: icontract/deal wheels unavailable; harness falls back to its own wrappers"
-fi
-exit 0
+export PYTHONPATH="$PWD" PYTHONDONTWRITEBYTECODE=1
+/venv/bin/python - <<'PY'
+from vlib.ref import mc6809, tape, dskfs
+print("R1 mc6809 self-test: %d instructions round-tripped" % mc6809.selftest())
+print("R4 tape   self-test: %d tapes round-tripped, negative tests ok" % tape.selftest())
+print("R5 dskfs  self-test: %d images round-tripped, negative tests ok" % dskfs.selftest())
+PY
